@@ -178,7 +178,7 @@ func aesCase(s *cases.Set, k, b []byte, name string) {
 
 // frame builds a data frame for the method cases. mode: 0 FOpts commands + app payload, 1 port 0 with commands,
 // 2 no port, 3 raw FOpts of 16..20 bytes, 4 FOpts with an unencodable command, 5 raw FOpts 1..15 + raw port-0 payload bytes,
-// 6 FPort 0 with FOpts
+// 6 FPort 0 with FOpts, 7 FPort absent with a FRMPayload
 func frame(r *cq.RNG, mode int) lorawan.PHYPayload {
 	mts := []lorawan.MType{lorawan.UnconfirmedDataUp, lorawan.UnconfirmedDataDown, lorawan.ConfirmedDataUp, lorawan.ConfirmedDataDown}
 	o := framefmt.Opt{MType: mts[r.Intn(4)], Port: -1, FCntHigh: r.Intn(10) < 7}
@@ -217,6 +217,9 @@ func frame(r *cq.RNG, mode int) lorawan.PHYPayload {
 		} else if r.Bool() {
 			o.Port, o.FRMLen = 1+r.Intn(255), r.Intn(40)
 		}
+	case 7: // FPort absent although there is a FRMPayload (e.g. the caller sets FPort after encrypting): the keystream does not depend on FPort
+		o.FRMLen = 1 + r.Intn(40)
+		o.FOptsBytes = r.Intn(8)
 	case 6: // FPort 0 together with FOpts (not a valid frame, but EncryptFOpts accepts it): NFCntDown, not AFCntDown
 		o.Port = 0
 		o.FOptsBytes = 1 + r.Intn(15)
@@ -249,7 +252,7 @@ func main() {
 	dir, seed, thorough := cases.Args()
 	r := cq.NewRNG(seed)
 	s := cases.New("C03", dir, "LW.Corr.C03",
-		"FIPS-197 C.1 first; corpus: 16-byte FOpts through EncryptFOpts/DecryptFOpts (C03-1), FPort 0 with empty FRMPayload through DecryptFRMPayload (C05-1). func EncryptFRMPayload: payload lengths 0,1,15,16,17,31,32,33,255,256 + random (thorough: every length 0..255 in both directions + random up to 600), one 4112-byte payload (257 blocks: counter byte wraps), counters >= 2^16 in 70%, both directions; func EncryptFOpts: every length 0..15 x aFCntDown x direction, 16..20 (error). PHYPayload methods: frames with MAC commands in FOpts (0..15 bytes) and application payload, commands on port 0, no port, raw FOpts 16..20 bytes, an unencodable command in FOpts, raw (undecodable) bytes, FPort 0 together with FOpts (counter choice boundary); Encrypt then Decrypt chains; wrong payload types. Go-side: applying a function twice restores the input. A case is non-trivial unless its byte string is empty.")
+		"FIPS-197 C.1 first; corpus: 16-byte FOpts through EncryptFOpts/DecryptFOpts (C03-1), FPort 0 with empty FRMPayload through DecryptFRMPayload (C05-1). func EncryptFRMPayload: payload lengths 0,1,15,16,17,31,32,33,255,256 + random (thorough: every length 0..255 in both directions + random up to 600), one 4112-byte payload (257 blocks: counter byte wraps), counters >= 2^16 in 70%, both directions; func EncryptFOpts: every length 0..15 x aFCntDown x direction, 16..20 (error). PHYPayload methods: frames with MAC commands in FOpts (0..15 bytes) and application payload, commands on port 0, no port, raw FOpts 16..20 bytes, an unencodable command in FOpts, raw (undecodable) bytes, FPort 0 together with FOpts (counter choice boundary), FPort absent with a non-empty FRMPayload (lengths 1..40, both directions, Encrypt and Decrypt); Encrypt then Decrypt chains; wrong payload types. Go-side: applying a function twice restores the input. A case is non-trivial unless its byte string is empty.")
 	s.ShardSize = 60
 	// official vector
 	fipsKey := make([]byte, 16)
@@ -319,13 +322,34 @@ func main() {
 	}
 	s.Exhaustive("EncryptFOpts lengths 0..20 x aFCntDown x uplink")
 	// ---- methods ----
+	// FPort absent x FRMPayload lengths 1..40 x both directions: EncryptFRMPayload and DecryptFRMPayload (of the encrypted frame)
+	for l := 1; l <= 40; l++ {
+		for _, mt := range []lorawan.MType{lorawan.UnconfirmedDataUp, lorawan.UnconfirmedDataDown, lorawan.ConfirmedDataUp, lorawan.ConfirmedDataDown} {
+			if !thorough && (mt == lorawan.ConfirmedDataUp || mt == lorawan.ConfirmedDataDown) && l%4 != 0 {
+				continue
+			}
+			sd := r.U64()
+			mk := func() lorawan.PHYPayload {
+				rr := cq.NewRNG(sd)
+				return framefmt.DataFrame(rr, framefmt.Opt{MType: mt, Port: -1, FRMLen: l, FCntHigh: l%3 != 0})
+			}
+			k := key(r)
+			methCase(s, 2, mk(), k, "meth-noport", "noport:")
+			p := mk()
+			if apply(2, &p, k) != cq.Err {
+				methCase(s, 3, p, k, "meth-noport", "noport:")
+			}
+			methCase(s, 3, mk(), k, "meth-noport", "noport:")
+		}
+	}
+	s.Exhaustive("PHYPayload.EncryptFRMPayload / DecryptFRMPayload with FPort absent, FRMPayload lengths 1..40, uplink and downlink")
 	n := 130
 	if thorough {
 		n = 4000
 	}
 	for i := 0; i < n; i++ {
 		sd := r.U64()
-		mode := []int{0, 0, 1, 2, 0, 1, 3, 4, 5, 6}[i%10]
+		mode := []int{0, 0, 1, 2, 0, 1, 3, 4, 5, 6, 7}[i%11]
 		mk := func() lorawan.PHYPayload { return frame(cq.NewRNG(sd), mode) }
 		k := key(r)
 		kind := fmt.Sprintf("meth-mode%d", mode)
